@@ -1,97 +1,390 @@
 import PoolProofs.C05Lemmas
-/-! The `Sign` case of `handleServerMessage`: the interpreted regenerated program equals a hand-written
-decision tree.  (Helper lemmas; headline theorems are in `PoolProofs/C05.lean`.) -/
+/-!
+The `Sign` case of `handleServerMessage`, order-tolerantly.
+
+Instead of proving the regenerated program equal to one fixed decision tree (which any harmless reordering
+of the Go statements would break), the trace properties are proved for **every** program that passes the
+decidable structural check `safeSign`:
+
+* every `BatchSign` call is immediately followed by `if err != nil { return s.sendRejectBatch(…) }`,
+* `sendSignBatch(batch, sigs, nonces, …)` occurs only after such a checked `BatchSign`,
+* the case ends with a `return`.
+
+Where `ParseRPCSign`, the two assignments, `BatchChannelSetup`, logging etc. stand relative to these does not
+matter.  The headline obligation is then `safeSign (handlerSignProg.map parseH) = true` by `decide`.
+(Helper lemmas; headline theorems are in `PoolProofs/C05.lean`.)
+-/
 set_option linter.unusedSimpArgs false
 set_option linter.unusedVariables false
 namespace Pool.C05
 open Pool.Gen.C05
 
-/-- observable result of the handler's Sign case: final manager state, chronological effect trace, and
-whether it crashed (nil batch) -/
-structure HOut where
-  st : St
-  trace : List Ev
-  panicked : Bool
-deriving Repr
+/-- a batch without the volatile Sign-message data (`ServerNonces`, `PreviousOutputs`) -/
+def Batch.core (b : Batch) : Batch := { b with nonces := [], prevOuts := [] }
 
-/-- does the regenerated Sign case start with `batch := PendingBatch(); if batch == nil { reject; return }`? -/
-def nilGuard : Bool :=
-  handlerSignProg.take 2 ==
-    [["call", "s.orderManager.PendingBatch", ""],
-     ["ifnil", "batch", "s.sendRejectUnparsedBatch", "s.sendRejectUnparsedBatch()"]]
+/-! ### the structural check -/
 
-/-- hand-written reading of the `Sign` case -/
-def handleSignSpec (s : St) (env : HEnv) : HOut :=
-  match s.pending with
-  | none =>
-    if nilGuard then
-      -- guarded tree: a reject naming the batch id of the message, nothing else
-      { st := s, trace := [.sendReject], panicked := false }
-    else
-      -- unguarded tree, batch == nil: a parse error dereferences it in sendRejectBatch, a parse success
-      -- in `batch.ServerNonces = …`
-      { st := s, trace := [.parseSign], panicked := true }
-  | some _ =>
-    if !env.parseOk then { st := s, trace := [.parseSign, .sendReject], panicked := false } else
-    let s1 := attachAux s env.nonces env.prev
-    if !env.chanOk then { st := s1, trace := [.parseSign, .chanSetup, .sendReject], panicked := false } else
-    match batchSign s1 env.faults with
-    | (s2, .ok sigs nonces) =>
-      if env.sendOk then
-        { st := s2, trace := [.parseSign, .chanSetup, .batchSign true, .sendSign sigs nonces], panicked := false }
-      else
-        { st := s2, trace := [.parseSign, .chanSetup, .batchSign true, .sendSign sigs nonces, .sendReject],
-          panicked := false }
-    | (s2, .panic) => { st := s2, trace := [.parseSign, .chanSetup], panicked := true }
-    | (s2, _) => { st := s2, trace := [.parseSign, .chanSetup, .batchSign false, .sendReject], panicked := false }
+inductive Abs | noSig | afterCall | signed | stopped | bad
+deriving DecidableEq, Repr
 
-theorem attachAux_twice (p : Option Batch) (db : DB) (b : Batch) (ns : List Key) (pv : List Out)
-    (hp : p = some b) :
-    attachAux (attachAux ⟨p, db⟩ ns ((Option.map (·.prevOuts) p).getD []))
-      ((Option.map (·.nonces) (attachAux ⟨p, db⟩ ns ((Option.map (·.prevOuts) p).getD [])).pending).getD []) pv
-      = attachAux ⟨p, db⟩ ns pv := by
-  subst hp; simp [attachAux]
+def absStep : Abs → HStmt → Abs
+  | .bad, _ => .bad
+  | .stopped, _ => .stopped
+  | .afterCall, .iferrReject => .signed
+  | .afterCall, _ => .bad
+  | _, .batchSign => .afterCall
+  | .noSig, .sendSign => .bad
+  | _, .ret => .stopped
+  | a, _ => a
 
-/-- The interpreted regenerated Sign case equals the decision tree above: in particular `BatchSign` is
-called strictly before `sendSignBatch`, `sendSignBatch` only on its success and with its results, and every
-error path hands the auctioneer a reject and nothing else.  This obligation breaks when the statement order
-of the Go source changes. -/
-theorem handleSign_eq_spec (s : St) (env : HEnv) :
-    (handleSign s env).st = (handleSignSpec s env).st ∧
-    (handleSign s env).trace.reverse = (handleSignSpec s env).trace ∧
-    (handleSign s env).panicked = (handleSignSpec s env).panicked := by
-  obtain ⟨pending, db⟩ := s
-  unfold handleSign handleSignWith handleSignSpec
-  simp only [handlerSignProg, List.foldl]
-  cases hp : pending with
-  | none =>
-    have hg : nilGuard = true ∨ nilGuard = false := by decide
-    cases hpo : env.parseOk <;> rcases hg with hg | hg <;> simp [hsStmt, hpo, hg] <;> (revert hg; decide)
-  | some b =>
-    cases hpo : env.parseOk with
-    | false => simp [hsStmt, hpo]
-    | true =>
-      have haux := attachAux_twice (some b) db b env.nonces env.prev rfl
-      have hs1 : (attachAux ⟨some b, db⟩ env.nonces env.prev).pending.isNone = false := by
-        simp [attachAux]
-      cases hco : env.chanOk with
-      | false => simp [hsStmt, hpo, hco, attachAux]
-      | true =>
-        have hpend := batchSign_pending (attachAux ⟨some b, db⟩ env.nonces env.prev) env.faults
-        cases hbs : batchSign (attachAux ⟨some b, db⟩ env.nonces env.prev) env.faults with
-        | mk s2 o =>
-          have hp2 : s2.pending.isNone = false := by
-            have : s2.pending = (attachAux ⟨some b, db⟩ env.nonces env.prev).pending := by
-              rw [← hpend, hbs]
-            rw [this]; exact hs1
-          have hbs' : batchSign { pending := some { b with nonces := env.nonces, prevOuts := env.prev }, db := db }
-              env.faults = (s2, o) := by
-            simpa [attachAux] using hbs
-          cases o with
-          | ok sigs nonces =>
-            cases hso : env.sendOk <;> simp [hsStmt, hpo, hco, attachAux, hbs', hso, hp2]
-          | errSign e => simp [hsStmt, hpo, hco, attachAux, hbs', hp2]
-          | errStore => simp [hsStmt, hpo, hco, attachAux, hbs', hp2]
-          | panic => simp [hsStmt, hpo, hco, attachAux, hbs', hp2]
+/-- the structural condition on the (parsed) Sign case -/
+def safeSign (prog : List HStmt) : Bool := prog.foldl absStep .noSig == .stopped
+
+theorem absStep_bad (prog : List HStmt) : prog.foldl absStep .bad = .bad := by
+  induction prog with
+  | nil => rfl
+  | cons st rest ih => simpa [List.foldl, absStep] using ih
+
+/-! ### trace predicates (traces are newest-first) -/
+
+/-- outcome of the most recent `BatchSign` in a newest-first trace -/
+def lastSign : List Ev → Option Bool
+  | [] => none
+  | .batchSign ok :: _ => some ok
+  | .parseSign :: rest => lastSign rest
+  | .chanSetup :: rest => lastSign rest
+  | .sendSign _ _ _ :: rest => lastSign rest
+  | .sendReject :: rest => lastSign rest
+
+/-- every sign message is preceded by a `BatchSign` whose most recent outcome was success -/
+def GoodTr : List Ev → Prop
+  | [] => True
+  | .sendSign _ _ _ :: pre => lastSign pre = some true ∧ GoodTr pre
+  | _ :: pre => GoodTr pre
+
+def NoFail (tr : List Ev) : Prop := Ev.batchSign false ∉ tr
+
+/-- what a sign message carries: the results of one successful `BatchSign` of this handler invocation, run on
+the handler's pending batch and database rows, and – as ghost – the staging area that `BatchSign` left -/
+def Rel (s : St) (env : HEnv) (S : List Sig) (N : List Key) (g : Option Staged) : Prop :=
+  ∃ s0 s1, s0.pending.map Batch.core = s.pending.map Batch.core ∧ s0.db.accts = s.db.accts ∧
+    s0.db.orders = s.db.orders ∧ batchSign s0 env.faults = (s1, .ok S N) ∧ g = s1.db.staged
+
+def RAll (s : St) (env : HEnv) (tr : List Ev) : Prop :=
+  ∀ S N g, Ev.sendSign S N g ∈ tr → Rel s env S N g
+
+def K (s : St) (x : HS) : Prop :=
+  x.st.pending.map Batch.core = s.pending.map Batch.core ∧ x.st.db.accts = s.db.accts ∧
+  x.st.db.orders = s.db.orders
+
+def Q (s : St) (env : HEnv) (x : HS) : Prop := Rel s env x.sigs x.tnonces x.st.db.staged
+
+def FailShape (x : HS) : Prop :=
+  NoFail x.trace ∨ x.panicked = true ∨ ∃ tr', x.trace = .sendReject :: .batchSign false :: tr' ∧ NoFail tr'
+
+def Phase (s : St) (env : HEnv) : Abs → HS → Prop
+  | .noSig, _ => True
+  | .afterCall, x => x.done = true ∨ x.err = true ∨ (lastSign x.trace = some true ∧ Q s env x)
+  | .signed, x => x.done = true ∨ (lastSign x.trace = some true ∧ Q s env x)
+  | .stopped, x => x.done = true
+  | .bad, _ => False
+
+structure Phi (s : St) (env : HEnv) (a : Abs) (x : HS) : Prop where
+  good : GoodTr x.trace
+  rall : RAll s env x.trace
+  k : K s x
+  live : x.done = false → NoFail x.trace ∨
+    (a = .afterCall ∧ x.err = true ∧ ∃ tr', x.trace = .batchSign false :: tr' ∧ NoFail tr')
+  dead : x.done = true → FailShape x
+  phase : Phase s env a x
+
+/-! ### frame lemmas -/
+
+theorem batchSign_frame (s : St) (f : Faults) :
+    (batchSign s f).1.db.accts = s.db.accts ∧ (batchSign s f).1.db.orders = s.db.orders := by
+  cases h : batchSign s f with
+  | mk s' o =>
+    cases o with
+    | ok S N =>
+      obtain ⟨b, rows, _, _, hs', _⟩ := batchSign_ok s f s' S N h
+      simp [hs']
+    | errSign e => have := batchSign_not_ok_db s f s' _ h (by intro S N; simp); simp [this]
+    | errStore => have := batchSign_not_ok_db s f s' _ h (by intro S N; simp); simp [this]
+    | panic => have := batchSign_not_ok_db s f s' _ h (by intro S N; simp); simp [this]
+
+theorem attachAux_core (s : St) (ns : List Key) (pv : List Out) :
+    (attachAux s ns pv).pending.map Batch.core = s.pending.map Batch.core := by
+  cases h : s.pending <;> simp [attachAux, h, Batch.core]
+
+theorem phase_done (s : St) (env : HEnv) (a : Abs) (x : HS) (ha : a ≠ .bad) (hd : x.done = true) :
+    Phase s env a x := by
+  cases a <;> simp_all [Phase]
+
+theorem noFail_cons (e : Ev) (tr : List Ev) (he : e ≠ .batchSign false) (h : NoFail tr) : NoFail (e :: tr) := by
+  unfold NoFail at *
+  simp only [List.mem_cons, not_or]
+  exact ⟨fun h' => he h'.symm, h⟩
+
+theorem rall_cons (s : St) (env : HEnv) (e : Ev) (tr : List Ev) (he : ∀ S N g, e ≠ .sendSign S N g)
+    (h : RAll s env tr) : RAll s env (e :: tr) := by
+  intro S N g hm
+  simp only [List.mem_cons] at hm
+  rcases hm with hm | hm
+  · exact absurd hm.symm (he S N g)
+  · exact h S N g hm
+
+/-! ### the step lemma -/
+
+theorem phi_step (s : St) (env : HEnv) (a : Abs) (x : HS) (st : HStmt)
+    (h : Phi s env a x) (hb : absStep a st ≠ .bad) :
+    Phi s env (absStep a st) (hStep env x st) := by
+  have ha : a ≠ .bad := by
+    intro h'; subst h'; simp [absStep] at hb
+  by_cases hd : x.done = true
+  · -- the handler has already returned: nothing changes
+    have hx : hStep env x st = x := by simp [hStep, hd]
+    rw [hx]
+    exact ⟨h.good, h.rall, h.k, fun h' => by simp [hd] at h', h.dead, phase_done s env _ x hb hd⟩
+  · have hdf : x.done = false := by simpa using hd
+    have hlive := h.live hdf
+    have hph := h.phase
+    have hns : a ≠ .stopped := by
+      intro h'; subst h'; simp [Phase, hdf] at hph
+    obtain ⟨hk1, hk2, hk3⟩ := h.k
+    -- facts available while running
+    cases st with
+    | pendingCall =>
+      have hx : hStep env x .pendingCall = x := by simp [hStep, hdf]
+      rw [hx]
+      cases a <;> simp [absStep] at hb ⊢ <;>
+        first | exact absurd rfl hns | exact ⟨h.good, h.rall, h.k, fun _ => by simpa using hlive, h.dead, h.phase⟩
+    | skip =>
+      have hx : hStep env x .skip = x := by simp [hStep, hdf]
+      rw [hx]
+      cases a <;> simp [absStep] at hb ⊢ <;>
+        first | exact absurd rfl hns | exact ⟨h.good, h.rall, h.k, fun _ => by simpa using hlive, h.dead, h.phase⟩
+    | ifnilBatch rej =>
+      have hnf : NoFail x.trace := by
+        cases a <;> simp [absStep] at hb <;> first | exact absurd rfl hns | simpa using hlive
+      have haeq : absStep a (.ifnilBatch rej) = a := by cases a <;> simp [absStep] at hb ⊢ <;> exact absurd rfl hns
+      rw [haeq]
+      by_cases hp : x.st.pending.isSome = true
+      · have hx : hStep env x (.ifnilBatch rej) = x := by simp [hStep, hdf, hp]
+        rw [hx]; exact ⟨h.good, h.rall, h.k, h.live, h.dead, h.phase⟩
+      · cases rej with
+        | true =>
+          have hx : hStep env x (.ifnilBatch true) = { x with trace := .sendReject :: x.trace, done := true } := by
+            simp [hStep, hdf, hp]
+          rw [hx]
+          exact ⟨by simpa [GoodTr] using h.good, rall_cons s env _ _ (by intro S N g; simp) h.rall,
+            ⟨hk1, hk2, hk3⟩, fun h' => by simp at h',
+            fun _ => Or.inl (noFail_cons _ _ (by simp) hnf), phase_done s env a _ ha rfl⟩
+        | false =>
+          have hx : hStep env x (.ifnilBatch false) = { x with done := true } := by simp [hStep, hdf, hp]
+          rw [hx]
+          exact ⟨h.good, h.rall, ⟨hk1, hk2, hk3⟩, fun h' => by simp at h', fun _ => Or.inl hnf,
+            phase_done s env a _ ha rfl⟩
+    | parse =>
+      have hnf : NoFail x.trace := by
+        cases a <;> simp [absStep] at hb <;> first | exact absurd rfl hns | simpa using hlive
+      have haeq : absStep a .parse = a := by cases a <;> simp [absStep] at hb ⊢ <;> exact absurd rfl hns
+      rw [haeq]
+      have hx : hStep env x .parse = { x with trace := .parseSign :: x.trace, err := !env.parseOk } := by
+        simp [hStep, hdf]
+      rw [hx]
+      refine ⟨by simpa [GoodTr] using h.good, rall_cons s env _ _ (by intro S N g; simp) h.rall,
+        ⟨hk1, hk2, hk3⟩, fun _ => Or.inl (noFail_cons _ _ (by simp) hnf), fun h' => by simp [hdf] at h', ?_⟩
+      cases a <;> simp [absStep] at hb <;> first | exact absurd rfl hns | simp_all [Phase, lastSign, Q]
+    | chanSetup =>
+      have hnf : NoFail x.trace := by
+        cases a <;> simp [absStep] at hb <;> first | exact absurd rfl hns | simpa using hlive
+      have haeq : absStep a .chanSetup = a := by cases a <;> simp [absStep] at hb ⊢ <;> exact absurd rfl hns
+      rw [haeq]
+      have hx : hStep env x .chanSetup = { x with trace := .chanSetup :: x.trace, err := !env.chanOk } := by
+        simp [hStep, hdf]
+      rw [hx]
+      refine ⟨by simpa [GoodTr] using h.good, rall_cons s env _ _ (by intro S N g; simp) h.rall,
+        ⟨hk1, hk2, hk3⟩, fun _ => Or.inl (noFail_cons _ _ (by simp) hnf), fun h' => by simp [hdf] at h', ?_⟩
+      cases a <;> simp [absStep] at hb <;> first | exact absurd rfl hns | simp_all [Phase, lastSign, Q]
+    | assignNonces =>
+      have hnf : NoFail x.trace := by
+        cases a <;> simp [absStep] at hb <;> first | exact absurd rfl hns | simpa using hlive
+      have haeq : absStep a .assignNonces = a := by cases a <;> simp [absStep] at hb ⊢ <;> exact absurd rfl hns
+      rw [haeq]
+      by_cases hp : x.st.pending.isNone = true
+      · have hx : hStep env x .assignNonces = { x with done := true, panicked := true } := by
+          simp [hStep, hdf, hp]
+        rw [hx]
+        exact ⟨h.good, h.rall, ⟨hk1, hk2, hk3⟩, fun h' => by simp at h', fun _ => Or.inr (Or.inl rfl),
+          phase_done s env a _ ha rfl⟩
+      · have hx : hStep env x .assignNonces =
+            { x with st := attachAux x.st env.nonces ((x.st.pending.map (·.prevOuts)).getD []) } := by
+          simp [hStep, hdf, hp]
+        rw [hx]
+        refine ⟨h.good, h.rall, ⟨by rw [attachAux_core]; exact hk1, hk2, hk3⟩,
+          fun _ => Or.inl hnf, fun h' => by simp [hdf] at h', ?_⟩
+        cases a <;> simp [absStep] at hb <;> first | exact absurd rfl hns | simp_all [Phase, Q, attachAux]
+    | assignPrev =>
+      have hnf : NoFail x.trace := by
+        cases a <;> simp [absStep] at hb <;> first | exact absurd rfl hns | simpa using hlive
+      have haeq : absStep a .assignPrev = a := by cases a <;> simp [absStep] at hb ⊢ <;> exact absurd rfl hns
+      rw [haeq]
+      by_cases hp : x.st.pending.isNone = true
+      · have hx : hStep env x .assignPrev = { x with done := true, panicked := true } := by
+          simp [hStep, hdf, hp]
+        rw [hx]
+        exact ⟨h.good, h.rall, ⟨hk1, hk2, hk3⟩, fun h' => by simp at h', fun _ => Or.inr (Or.inl rfl),
+          phase_done s env a _ ha rfl⟩
+      · have hx : hStep env x .assignPrev =
+            { x with st := attachAux x.st ((x.st.pending.map (·.nonces)).getD []) env.prev } := by
+          simp [hStep, hdf, hp]
+        rw [hx]
+        refine ⟨h.good, h.rall, ⟨by rw [attachAux_core]; exact hk1, hk2, hk3⟩,
+          fun _ => Or.inl hnf, fun h' => by simp [hdf] at h', ?_⟩
+        cases a <;> simp [absStep] at hb <;> first | exact absurd rfl hns | simp_all [Phase, Q, attachAux]
+    | batchSign =>
+      have hnf : NoFail x.trace := by
+        cases a <;> simp [absStep] at hb <;> first | exact absurd rfl hns | simpa using hlive
+      have haeq : absStep a .batchSign = .afterCall := by cases a <;> simp [absStep] at hb ⊢ <;> exact absurd rfl hns
+      rw [haeq]
+      have hfr := batchSign_frame x.st env.faults
+      have hpd := batchSign_pending x.st env.faults
+      cases hbs : batchSign x.st env.faults with
+      | mk st' o =>
+        rw [hbs] at hfr hpd
+        have hk' : K s { x with st := st' } :=
+          ⟨by simp only; rw [hpd]; exact hk1, by simp only; rw [hfr.1]; exact hk2,
+           by simp only; rw [hfr.2]; exact hk3⟩
+        cases o with
+        | ok S N =>
+          have hx : hStep env x .batchSign =
+              { x with st := st', trace := .batchSign true :: x.trace, err := false, sigs := S, tnonces := N } := by
+            simp [hStep, hdf, hbs]
+          rw [hx]
+          refine ⟨by simpa [GoodTr] using h.good, rall_cons s env _ _ (by intro S N g; simp) h.rall, hk',
+            fun _ => Or.inl (noFail_cons _ _ (by simp) hnf), fun h' => by simp [hdf] at h', ?_⟩
+          right; right
+          exact ⟨rfl, x.st, st', hk1, hk2, hk3, hbs, rfl⟩
+        | panic =>
+          have hx : hStep env x .batchSign = { x with st := st', done := true, panicked := true } := by
+            simp [hStep, hdf, hbs]
+          rw [hx]
+          exact ⟨h.good, h.rall, hk', fun h' => by simp at h', fun _ => Or.inr (Or.inl rfl), Or.inl rfl⟩
+        | errSign e =>
+          have hx : hStep env x .batchSign =
+              { x with st := st', trace := .batchSign false :: x.trace, err := true, sigs := [], tnonces := [] } := by
+            simp [hStep, hdf, hbs]
+          rw [hx]
+          exact ⟨by simpa [GoodTr] using h.good, rall_cons s env _ _ (by intro S N g; simp) h.rall, hk',
+            fun _ => Or.inr ⟨rfl, rfl, x.trace, rfl, hnf⟩, fun h' => by simp [hdf] at h', Or.inr (Or.inl rfl)⟩
+        | errStore =>
+          have hx : hStep env x .batchSign =
+              { x with st := st', trace := .batchSign false :: x.trace, err := true, sigs := [], tnonces := [] } := by
+            simp [hStep, hdf, hbs]
+          rw [hx]
+          exact ⟨by simpa [GoodTr] using h.good, rall_cons s env _ _ (by intro S N g; simp) h.rall, hk',
+            fun _ => Or.inr ⟨rfl, rfl, x.trace, rfl, hnf⟩, fun h' => by simp [hdf] at h', Or.inr (Or.inl rfl)⟩
+    | sendSign =>
+      -- only reachable in phase `signed`
+      cases a <;> simp [absStep] at hb
+      case stopped => exact absurd rfl hns
+      case signed =>
+        have hnf : NoFail x.trace := by simpa using hlive
+        simp only [Phase, hdf, Bool.false_eq_true, false_or] at hph
+        obtain ⟨hls, hq⟩ := hph
+        have hx : hStep env x .sendSign =
+            { x with trace := .sendSign x.sigs x.tnonces x.st.db.staged :: x.trace, err := !env.sendOk } := by
+          simp [hStep, hdf]
+        rw [hx]
+        simp only [absStep]
+        refine ⟨⟨hls, h.good⟩, ?_, ⟨hk1, hk2, hk3⟩, fun _ => Or.inl (noFail_cons _ _ (by simp) hnf),
+          fun h' => by simp [hdf] at h', Or.inr ⟨by simpa [lastSign] using hls, hq⟩⟩
+        intro S N g hm
+        simp only [List.mem_cons] at hm
+        rcases hm with hm | hm
+        · cases hm; exact hq
+        · exact h.rall S N g hm
+    | iferrReject =>
+      by_cases he : x.err = true
+      · by_cases hp : x.st.pending.isNone = true
+        · have hx : hStep env x .iferrReject = { x with done := true, panicked := true } := by
+            simp [hStep, hdf, he, hp]
+          rw [hx]
+          exact ⟨h.good, h.rall, ⟨hk1, hk2, hk3⟩, fun h' => by simp at h', fun _ => Or.inr (Or.inl rfl),
+            phase_done s env _ _ hb rfl⟩
+        · have hx : hStep env x .iferrReject = { x with trace := .sendReject :: x.trace, done := true } := by
+            simp [hStep, hdf, he, hp]
+          rw [hx]
+          refine ⟨by simpa [GoodTr] using h.good, rall_cons s env _ _ (by intro S N g; simp) h.rall,
+            ⟨hk1, hk2, hk3⟩, fun h' => by simp at h', fun _ => ?_, phase_done s env _ _ hb rfl⟩
+          rcases hlive with hnf | ⟨_, _, tr', htr, hnf⟩
+          · exact Or.inl (noFail_cons _ _ (by simp) hnf)
+          · exact Or.inr (Or.inr ⟨tr', by simp [htr], hnf⟩)
+      · have hef : x.err = false := by simpa using he
+        have hx : hStep env x .iferrReject = x := by simp [hStep, hdf, hef]
+        rw [hx]
+        have hnf : NoFail x.trace := by
+          rcases hlive with hnf | ⟨_, he', _⟩
+          · exact hnf
+          · simp [hef] at he'
+        refine ⟨h.good, h.rall, h.k, fun _ => Or.inl hnf, h.dead, ?_⟩
+        cases a <;> simp [absStep] at hb ⊢ <;> first | exact absurd rfl hns | simp_all [Phase]
+    | iferrReturn =>
+      have hnf : NoFail x.trace := by
+        cases a <;> simp [absStep] at hb <;> first | exact absurd rfl hns | simpa using hlive
+      have haeq : absStep a .iferrReturn = a := by cases a <;> simp [absStep] at hb ⊢ <;> exact absurd rfl hns
+      rw [haeq]
+      by_cases he : x.err = true
+      · have hx : hStep env x .iferrReturn = { x with done := true } := by simp [hStep, hdf, he]
+        rw [hx]
+        exact ⟨h.good, h.rall, ⟨hk1, hk2, hk3⟩, fun h' => by simp at h', fun _ => Or.inl hnf,
+          phase_done s env a _ ha rfl⟩
+      · have hx : hStep env x .iferrReturn = x := by simp [hStep, hdf, he]
+        rw [hx]; exact ⟨h.good, h.rall, h.k, h.live, h.dead, h.phase⟩
+    | ret =>
+      have hnf : NoFail x.trace := by
+        cases a <;> simp [absStep] at hb <;> first | exact absurd rfl hns | simpa using hlive
+      have hx : hStep env x .ret = { x with done := true } := by simp [hStep, hdf]
+      rw [hx]
+      exact ⟨h.good, h.rall, ⟨hk1, hk2, hk3⟩, fun h' => by simp at h', fun _ => Or.inl hnf,
+        phase_done s env _ _ hb rfl⟩
+
+theorem phi_run (s : St) (env : HEnv) (prog : List HStmt) (a : Abs) (x : HS)
+    (h : Phi s env a x) (hb : prog.foldl absStep a ≠ .bad) :
+    Phi s env (prog.foldl absStep a) (prog.foldl (hStep env) x) := by
+  induction prog generalizing a x with
+  | nil => exact h
+  | cons st rest ih =>
+    simp only [List.foldl] at hb ⊢
+    have hb1 : absStep a st ≠ .bad := by
+      intro h'; rw [h', absStep_bad] at hb; exact hb rfl
+    exact ih _ _ (phi_step s env a x st h hb1) hb
+
+theorem phi_init (s : St) (env : HEnv) : Phi s env .noSig (hInit s) :=
+  ⟨trivial, fun _ _ _ hm => by simp [hInit] at hm, ⟨rfl, rfl, rfl⟩,
+   fun _ => Or.inl (by simp [NoFail, hInit]), fun h => by simp [hInit] at h, trivial⟩
+
+/-- everything the invariant gives for a safe program -/
+theorem safe_run (s : St) (env : HEnv) (prog : List HStmt) (hs : safeSign prog = true) :
+    let h := handleSignParsed prog s env
+    GoodTr h.trace ∧ RAll s env h.trace ∧ FailShape h ∧ h.done = true := by
+  have hst : prog.foldl absStep .noSig = .stopped := by simpa [safeSign] using hs
+  have hphi := phi_run s env prog .noSig (hInit s) (phi_init s env) (by rw [hst]; simp)
+  rw [hst] at hphi
+  have hd : (prog.foldl (hStep env) (hInit s)).done = true := hphi.phase
+  exact ⟨hphi.good, hphi.rall, hphi.dead hd, hd⟩
+
+theorem goodTr_split (tr post pre : List Ev) (S : List Sig) (N : List Key) (g : Option Staged)
+    (h : GoodTr tr) (he : tr = post ++ Ev.sendSign S N g :: pre) : lastSign pre = some true := by
+  induction post generalizing tr with
+  | nil => subst he; exact h.1
+  | cons e post ih =>
+    subst he
+    cases e <;> simp only [List.cons_append, GoodTr] at h
+    · exact ih _ h rfl
+    · exact ih _ h rfl
+    · exact ih _ h rfl
+    · exact ih _ h.2 rfl
+    · exact ih _ h rfl
 
 end Pool.C05
